@@ -1220,6 +1220,8 @@ class Interp:
             if is_native(item) or isinstance(item, tuple):
                 return self.hashable(item) in cont
             # symbolic key against concrete keys
+            if self._strish(item) and isinstance(cont, (set, frozenset)) and all(isinstance(k, str) for k in cont):
+                return self.wrap(z3.Or([item.e == z3.StringVal(k) for k in sorted(cont)])) if cont else False      # pure: a disjunction instead of a path split
             for k in list(cont):
                 if self.truth(self.py_eq(item, self.unhash(k), node), node):
                     return True
